@@ -59,25 +59,20 @@ static zidx_t							\
 find_before_##N(						\
 	const X v[], size_t nv, X key, zidx_t i, zidx_t min, zidx_t max) \
 {								\
-/* Given key K find the index of the transition before */	\
-	do {							\
-		X lo, up;					\
+/* Given key K find the index of the transition before, i.e.	\
+ * the largest I in [MIN, MAX] with V[I] < KEY, or MIN if none */	\
+	(void)nv;						\
+	while (min < max) {					\
+		/* round up so that the interval always shrinks */	\
+		i = min + (max - min + 1U) / 2U;		\
 								\
-		lo = v[i];					\
-		up = v[i + 1];					\
-								\
-		if (key > lo && key <= up) {			\
-			/* found him */				\
-			break;					\
-		} else if (key > up) {				\
-			min = i + 1;				\
-			i = (i + max) / 2;			\
-		} else if (key <= lo) {				\
-			max = i - 1;				\
-			i = (i + min) / 2;			\
+		if (v[i] < key) {				\
+			min = i;				\
+		} else {					\
+			max = i - 1U;				\
 		}						\
-	} while (max > min && i < nv);				\
-	return i;						\
+	}							\
+	return min;						\
 }								\
 static const int UNUSED(defined_find_before_##name##_p)
 
